@@ -285,6 +285,11 @@ class Run(RunBase):
     # ---- generator --------------------------------------------------------
     def propose(self, rng):
         op = self.propose_inner(rng)
+        x = rng.random()
+        if x < 0.15:
+            op["kw"] = 1        # the same call with keyword arguments
+        elif x < 0.30:
+            op["omit"] = 1      # ... or leaving out arguments that have documented defaults
         if self.world.get("quiet") and rng.random() < self.world["quiet"]:
             op["q"] = 1
         return op
@@ -392,7 +397,10 @@ class Run(RunBase):
                 sup[ii] = cc
         else:
             def call():
-                sup.setocc(ii, cc)
+                if op.get("kw"):
+                    sup.setocc(c=cc, ind=ii)
+                else:
+                    sup.setocc(ii, cc)
         if self.relatives:
             self.faults["edit-with-live-copy"] += 1
         if valid_i and valid_c:
@@ -438,7 +446,12 @@ class Run(RunBase):
         ci = tuple(op["ci"])
         if ci not in self.atomindices:
             return self.expect_reject(k, lambda: sup.fillperiodic(ci, op["wyckoff"]), (IndexError,), "fill")
-        ret = sup.fillperiodic(ci, op["wyckoff"])
+        if op.get("kw"):
+            ret = sup.fillperiodic(Wyckoff=op["wyckoff"], ci=ci)
+        elif op["wyckoff"] and op.get("omit"):
+            ret = sup.fillperiodic(ci)            # Wyckoff=True is the default
+        else:
+            ret = sup.fillperiodic(ci, op["wyckoff"])
         if ret is not sup:
             self.fail("api", "fillperiodic did not return self")
         ind = self.atomindices.index(ci)
@@ -482,7 +495,7 @@ class Run(RunBase):
             return self.expect_reject(k, lambda: sup.reorder(mp), (ValueError, IndexError), "reorder")
         if bad == "dup":
             return self.expect_reject(k, lambda: sup.reorder(mp), (ValueError,), "reorder")
-        ret = sup.reorder(mp)
+        ret = sup.reorder(mapping=mp) if op.get("kw") else sup.reorder(mp)
         if ret is not sup:
             self.fail("api", "reorder did not return self")
         m.order = new
@@ -615,7 +628,12 @@ class Run(RunBase):
             okw["latt_threshold"] = 0.01      # the lattice in the file is the supercell's own: must be accepted
         if okw:
             self.probes["poscar-explicit-thresholds"] += 1
-        got = tgt.POSCAR_occ(text2, EMPTY_SUPER=empty, **okw)
+        if op.get("kw"):
+            got = tgt.POSCAR_occ(EMPTY_SUPER=empty, POSCAR_str=text2, **okw)
+        elif empty and op.get("omit"):
+            got = tgt.POSCAR_occ(text2, **okw)            # EMPTY_SUPER=True is the default
+        else:
+            got = tgt.POSCAR_occ(text2, empty, **okw)
         if got != name:
             self.fail("poscar-name", "POSCAR_occ returned {!r}, first line is {!r}".format(got, name))
         # model: optional emptying, then setocc in file order
